@@ -301,7 +301,7 @@ def explore_task(task, res):
     deadline = time.time() + (120 if task["tier"] == "quick" else 1500)
     seen_path_inputs = set()
     t_start = time.time()
-    n_capped0 = 0
+    unowned0 = CH.unowned_draws
     for kw in task["kws"]:
         kwkey = ",".join(f"{k}={v}" for k, v in sorted(kw.items()))
         base = dict(gen=gen, shape=list(shape), kw=kw, rand=task.get("rand", "default"))
@@ -366,12 +366,17 @@ def explore_task(task, res):
                     res.fail(f"{keyp}|trap", f"{gen}{shape}: a reachable state cannot reach any terminal",
                              dict(kind="task", task=dict(task, kws=[kw])))
             res.add("graphs", (gen, shape, kwkey, g.n_states, g.n_transitions, len(g.terminals()), g.capped))
-    _timing(task, res, t_start)
+    _timing_and_unowned(task, res, t_start, unowned0)
 
 
 def _timing(task, res, t_start):
     res.add("timing", (round(time.time() - t_start, 1), task["gen"], tuple(task["shape"]), task["mode"], len(task["kws"]),
                        task.get("rand", ""), res.counters.get("capped_tasks", 0)))
+
+
+def _timing_and_unowned(task, res, t_start, unowned0):
+    res.count("unowned_draws", CH.unowned_draws - unowned0)
+    _timing(task, res, t_start)
 
 
 def replay_case(d, res, which):
